@@ -6,10 +6,10 @@ ENTRY = dict(
         prop_file="Properties/C10.v",
         corr_files=["Corr/C10Corr.v"],
         theorems=["c10_split_barriers", "c10_combine_barriers", "c10_separate", "c10_exactly_one", "c10_members",
-                  "c10_commute", "c10_recompose", "c10_union_find", "c10_auto_idle", "c10_keep_idle_wires",
+                  "c10_commute", "c10_recompose", "c10_union_find", "c10_auto_idle", "c10_auto_components", "c10_keep_idle_wires",
                   "c10_separate_drops_idle", "c10_dx_contract_inhabited", "c10_cuts", "c10_problem_recompose",
                   "c10_subobs_keys", "c10_subobs_tensor", "c10_problem_subobs", "c10_separate_total", "c10_cutting_total",
-                  "c10_problem_total_partial", "c10_separate_refuses", "c10_problem_refuses",
+                  "c10_problem_total", "c10_separate_refuses", "c10_problem_refuses",
                   "c10_idle_observable", "c10_idle_observable_problem", "c10_facts"],
         allowed_axioms=[],
         facts=["value_error_sites", "c10_separate_calls", "c10_problem_calls", "c10_idle_group_removed",
@@ -26,8 +26,11 @@ ENTRY = dict(
                    "interleaving; union-find correctness (same root iff connected), idle <-> None, consecutive labels ordered by "
                    "least qubit; the k-th cut gives two halves with suffix k and the same basis in the right partitions; keys of "
                    "sub-observables = keys of subcircuits (same order) and the tensor product is the original string; refusals. "
-                   "Totality: a valid labelling is always answered (c10_separate_total); for partition_problem totality is PARTIAL "
-                   "(validity of the labelling assumed for the cut circuit, not derived from the input). "
+                   "Totality: a valid labelling is always answered (c10_separate_total), and so is every partition_problem request that "
+                   "passes the validations, has no uncuttable gate and whose instructions act on labelled qubits (c10_problem_total, "
+                   "for every decompose oracle satisfying its contract). Automatic labels are characterised on instructions: "
+                   "connected components of the non-ignored instructions, None iff no instruction at all touches the qubit "
+                   "(c10_auto_components). "
                    "Closed under the global context. The models are run against the implementation on >2000 generated cases per "
                    "quick run (8 streams incl. every helper).",
         level_note=STD_NOTE + "No axioms. partition_problem is modelled with the REPAIRED idle-qubit behaviour F4 (None group removed from "
